@@ -5,7 +5,7 @@ from .. import families
 
 def run(tier):
     return famcheck.run(
-        "C06", tier, [("c06", families.c06(tier))],
+        "C06", tier, [("c06", families.c06(tier)), ("mixed", families.mixed(tier, 1500 if tier == "thorough" else 80, salt=6))],
         "13 value-producing operations (postfix ++/-- on locals and registers, bundled sub-routine calls, GCC statement-expressions) "
         "in 14 positions (initialiser, assignment, both operand sides, condition, call argument, both ?: arms, unused expression "
         "statement, store value, loop body, if body, behind && and ||), pairs of operations on independent state, loop steps, "
